@@ -384,6 +384,8 @@ func c14Build(scenario int, mon *c14Mon, round int) (jobs []c14Job, finish []fun
 		jobs = append(jobs, charJob("shared *CharRecipe (longer prefix of the same RequireSets array)", func() spg.CharRecipe { return *r3 }, r3))
 		r2 := spg.NewCharRecipe(20 + round%7)
 		jobs = append(jobs, charJob("shared *CharRecipe (defaults)", func() spg.CharRecipe { return *r2 }, r2))
+		r5 := &spg.CharRecipe{Length: 14 + round%3, Allow: spg.All, Require: spg.All, RequireSets: []string{"xyz", "789"}}
+		jobs = append(jobs, charJob("shared *CharRecipe with six required sets", func() spg.CharRecipe { return *r5 }, r5))
 		// value copies of one recipe that came from the constructor, each with requirements of its own
 		base := spg.NewCharRecipe(10 + round%3)
 		base.Require = spg.Digits
